@@ -268,6 +268,9 @@ def main(props, jobs=16):
         n += s["break_total"] + s["benign_total"] + s["unrepair_total"] + s.get("seeded_total", 0)
         print("%s baseline_exit=%d break %d/%d benign %d/%d unrepair %d/%d seeded %d/%d skipped %d" % (p, baselines[p], s["break_killed"], s["break_total"], s["benign_silent"],
               s["benign_total"], s["unrepair_detected"], s["unrepair_total"], s.get("seeded_as_expected", 0), s.get("seeded_total", 0), s["skipped"]))
+        if baselines[p] != 0:
+            bad += 1
+            print("   !! baseline check of %s exits %d on the unchanged tree" % (p, baselines[p]))
         for f in s["failures"]:
             bad += 1
             print("   !! %s" % json.dumps(f)[:700])
